@@ -216,6 +216,24 @@ fn index(i: u32) -> (usize, usize) {
     (a, b)
 }
 
+/// Verification hook: the private index function.
+#[cfg(feature = "isographlabs_isograph_verif")]
+pub fn verif_index(i: u32) -> (usize, usize) {
+    index(i)
+}
+
+/// Verification hook: the private bucket capacity function.
+#[cfg(feature = "isographlabs_isograph_verif")]
+pub fn verif_bucket_capacity(a: usize) -> usize {
+    bucket_capacity(a)
+}
+
+/// Verification hook: (MIN_SHIFT, U32_BITS, MIN_SIZE, NUM_SIZES, MAX_INDEX).
+#[cfg(feature = "isographlabs_isograph_verif")]
+pub fn verif_consts() -> (u32, usize, u32, usize, u32) {
+    (MIN_SHIFT, U32_BITS, MIN_SIZE, NUM_SIZES, MAX_INDEX)
+}
+
 /// A default instance makes it easier to create sharded instances.
 impl<'a, T> Default for AtomicArena<'a, T> {
     fn default() -> Self {
@@ -264,6 +282,8 @@ impl<'a, T> AtomicArena<'a, T> {
     /// it calls `slice_for_slot_slow` to allocate it.
     #[inline]
     fn slice_for_slot(&self, a: usize) -> NonNull<MaybeUninit<T>> {
+        #[cfg(feature = "isographlabs_isograph_verif")]
+        crate::verif_hook::yield_point("add.load_bucket", a as u64);
         if let Some(curr) = NonNull::new(self.buckets[a as usize].load(Ordering::Acquire)) {
             curr
         } else {
@@ -279,9 +299,15 @@ impl<'a, T> AtomicArena<'a, T> {
         // needs to be allocated.  Double-checked locking is fine because the
         // buckets are `AtomicPtr` with the unlocked read and locked write
         // as an `Acquire / Release` pair.
+        #[cfg(feature = "isographlabs_isograph_verif")]
+        crate::verif_hook::before_lock("slow.lock", a as u64, || self.bucket_alloc_mutex.is_locked());
         let lock = self.bucket_alloc_mutex.lock();
+        #[cfg(feature = "isographlabs_isograph_verif")]
+        crate::verif_hook::yield_point("slow.recheck", a as u64);
         // Relaxed load because we know we're competing with prior lock holders now.
         if let Some(curr) = NonNull::new(self.buckets[a as usize].load(Ordering::Relaxed)) {
+            #[cfg(feature = "isographlabs_isograph_verif")]
+            crate::verif_hook::yield_point("slow.unlock_found", a as u64);
             return curr;
         }
         let cap = bucket_capacity(a) as usize;
@@ -300,7 +326,11 @@ impl<'a, T> AtomicArena<'a, T> {
         memory_consistency_assert!(acap == cap || std::mem::size_of::<T>() == 0);
         memory_consistency_assert_eq!(len, 0);
         if let Some(nn_ptr) = NonNull::new(ptr) {
+            #[cfg(feature = "isographlabs_isograph_verif")]
+            crate::verif_hook::yield_point("slow.store", a as u64);
             self.buckets[a as usize].store(ptr, Ordering::Release);
+            #[cfg(feature = "isographlabs_isograph_verif")]
+            crate::verif_hook::yield_point("slow.unlock", a as u64);
             drop(lock);
             nn_ptr
         } else {
@@ -311,6 +341,8 @@ impl<'a, T> AtomicArena<'a, T> {
     #[inline]
     /// Number of allocated objects in the arena as of the time of call.
     pub fn len(&self) -> usize {
+        #[cfg(feature = "isographlabs_isograph_verif")]
+        crate::verif_hook::yield_point("len.load", 0);
         (self.next_biased_index.load(Ordering::Relaxed) - MIN_SIZE) as usize
     }
 
@@ -329,6 +361,8 @@ impl<'a, T> AtomicArena<'a, T> {
     pub fn add_get(&self, element: T) -> (Ref<'a, T>, &T) {
         // Atomically obtain an id, thus resolving conflicts among
         // concurrent add() operations.
+        #[cfg(feature = "isographlabs_isograph_verif")]
+        crate::verif_hook::yield_point("add.fetch_add", 0);
         let s = self.next_biased_index.fetch_add(1, Ordering::Relaxed);
         // Linearization point for add().
         assert!(s >= MIN_SIZE); // Panic on wraparound ( == overflow).
@@ -344,6 +378,8 @@ impl<'a, T> AtomicArena<'a, T> {
         // the current (uninitialized) contents of this bucket
         // entry before writing the new contents.  This can yield
         // a hard-to-debug segfault in the internals of malloc.
+        #[cfg(feature = "isographlabs_isograph_verif")]
+        crate::verif_hook::yield_point("add.write", s as u64);
         let e_ptr: *mut MaybeUninit<T> = unsafe { e_ptr.add(b as usize) };
         unsafe {
             *e_ptr = MaybeUninit::new(element);
@@ -370,6 +406,8 @@ impl<'a, T> AtomicArena<'a, T> {
     /// `Ref` returned by `self.add(...)` obtained in a thread-safe way
     /// (unsafe example: load via Ordering::Relaxed).
     pub fn get(&self, r: Ref<'a, T>) -> &T {
+        #[cfg(feature = "isographlabs_isograph_verif")]
+        crate::verif_hook::yield_point("get.check", r.biased_index.get() as u64);
         let i = r.biased_index.get();
         // In debug mode, bounds check and panic.  Note that this bounds check
         // won't catch all unsafe accesses, since add() increments size *before*
@@ -379,6 +417,8 @@ impl<'a, T> AtomicArena<'a, T> {
             debug_assert!(i < l, "{} < {}", i, l);
         }
         let (a, b) = index(i);
+        #[cfg(feature = "isographlabs_isograph_verif")]
+        crate::verif_hook::yield_point("get.load_bucket", a as u64);
         let e_ptr = unsafe {
             // Get bucket address, but do *not* allocate a bucket.
             // Ordering::Relaxed is OK because we got a Ref in a
@@ -387,6 +427,8 @@ impl<'a, T> AtomicArena<'a, T> {
                 .get_unchecked(a as usize)
                 .load(Ordering::Relaxed)
         };
+        #[cfg(feature = "isographlabs_isograph_verif")]
+        crate::verif_hook::yield_point("get.read", i as u64);
         // Sanity check bucket.  Again, won't catch all unsafe accesses.
         memory_consistency_assert!(!e_ptr.is_null());
         unsafe {
